@@ -70,6 +70,9 @@ SOURCES = [
     ("duration('1s') > duration('1500ms')", ["empty"], "reprs"), ("timestamp('2020-01-01T00:00:00Z') == timestamp('2020-01-01T00:00:00Z')", ["empty"], "reprs"),
     ("timestamp('2020-01-01T00:00:00.000001Z') == timestamp('2020-01-01T00:00:00Z')", ["empty"], "reprs"), ("da == db", ["durs"], "reprs"), ("da < db", ["durs"], "reprs"),
     ("db < da", ["durs"], "reprs"), ("ta <= tb", ["stamps"], "reprs"), ("tb <= ta", ["stamps"], "reprs"), ("ta != tb", ["stamps"], "reprs"),
+    # a name that is no function of the program, called; the bindings of some evaluations bind that name to a host callable (another one the
+    # next time, none after that): whatever such a call evaluates to, it depends on the bindings of THAT call only
+    ("scale(n)", ["callables"], "fnbind"), ("[n, n + 1].map(i, scale(i))", ["callables"], "fnbind"), ("n.scale()", ["callables"], "fnbind"), ("scale(n) > 0 || n > 0", ["callables"], "fnbind"),
 ]
 BINDINGS = {
     "empty": [{}],
@@ -93,6 +96,7 @@ BINDINGS = {
         {"r": ("map", ((("string", "kind"), ("string", "net")),)), "r.kind": ("string", "both"), "n": ("int", 3), "a.b": ("int", 3)}, {"r": ("map", ()), "n": ("int", 4)},
         {"r.kind": ("string", "again"), "n": ("int", 5), "a": ("map", ((("string", "b"), ("int", 5)),)), "a.b": ("int", 6)},
     ],
+    "callables": [{"n": ("int", 3), "scale": ("hostfn", "h1")}, {"n": ("int", 3), "scale": ("hostfn", "hb")}, {"n": ("int", 3)}, {"n": ("int", 4), "scale": ("hostfn", "h1")}, {"n": ("int", 3), "scale": ("int", 5)}],
     "twins": [{"v": ("int", 1)}, {"v": ("uint", 1)}, {"v": ("double", 1.0)}, {"v": ("bool", True)}, {"v": ("int", 0)}, {"v": ("double", 0.0)}, {"v": ("double", -0.0)}, {"v": ("bool", False)}, {"v": ("uint", 0)}],
 }
 BAD_SOURCES = ["1 +", "[1, 2", "a..b", "?"]
